@@ -74,8 +74,17 @@ def generate(rseed, tier, idx):
     mode = g.choice((0, 1, 1, 2, None))
     vr = g.random() < 0.4
     n = g.choice((0, 1, 2, 3, 3, 4, 5, 6, 8, 12))
+    big = g.random() < 0.03
     poison_p = g.choice((0.0, 0.15, 0.3))
     L = [_entry(g, vr, poison_p) for _ in range(n)]
+    if big:
+        # a long list (100+ entries, mostly already readable so it stays cheap) around the generated ones
+        k0 = g.randrange(1 << 20)
+        pad = [{"t": enc("#%06x" % (((k0 + 7919 * j) % (1 << 24)) & 0x3f3f3f)), "b": enc("#ffffff"), "large": None, "bg_rgb": [255, 255, 255], "alpha": False}
+               for j in range(g.choice((100, 140)))]
+        pos = g.randrange(len(pad))
+        L = pad[:pos] + L + pad[pos:]
+        n = len(L)
     if n >= 2 and g.random() < 0.4:  # duplicates
         for _ in range(g.randint(1, 2)):
             L[g.randrange(n)] = copy.deepcopy(L[g.randrange(n)])
@@ -106,6 +115,8 @@ def generate(rseed, tier, idx):
     pe = _entry(g, vr, 1.0)
     if n <= 4:
         positions = list(range(n + 1))
+    elif n > 50:
+        positions = [g.randrange(n + 1)]
     else:
         positions = sorted({0, n, g.randrange(n + 1)})
     return {"prop": ID, "mode": mode, "vr": vr, "L": L, "perm": perm, "split": g.randint(0, n), "poison": pe,
